@@ -83,14 +83,29 @@ def precedence(run, fx):
                     r = _role(lt, d['init'], env)
                     if r:
                         env[d['vid']] = r
-    rets = [e for _, e in lt.elements() if e['k'] == 'ReturnStmt']
-    if len(rets) != 1:
-        raise AnalysisBroken('RuleEntry::operator<: expected a single return expression')
-    # the return expression may be split over short-circuit blocks: rebuild from the terminator structure via the source tree
-    expr = rets[0]['c'][0]
+    def walk_cfg(order):
+        """the value the function returns under one order-type assignment: follow the CFG, deciding every branch from the order"""
+        b = lt.entry
+        for _ in range(64):
+            for e in lt.blocks[b]['el']:
+                if e['k'] == 'ReturnStmt' and e.get('c'):
+                    v = lt.strip_all_casts(e['c'][0])
+                    if v.get('v') is not None and v['k'] != 'BinaryOperator':
+                        return bool(v['v'])
+                    return _ordeval(lt, e['c'][0], env, order)
+            succ = lt.blocks[b]['succ']
+            if len(succ) == 1 and succ[0] is not None:
+                b = succ[0]
+                continue
+            c = lt.term_cond(b)
+            if len(succ) == 2 and c is not None and None not in succ:
+                b = succ[0] if _ordeval(lt, c, env, order) else succ[1]
+                continue
+            break
+        raise AnalysisBroken('RuleEntry::operator<: control flow the order evaluator cannot follow')
     bad = []
     for so, ro in product('<=>', repeat=2):
-        got = _ordeval(lt, expr, env, {'sort': so, 'rule': ro})
+        got = walk_cfg({'sort': so, 'rule': ro})
         want = (so == '>') or (so == '=' and ro == '<')
         if got != want:
             bad.append((so, ro, got))
@@ -160,54 +175,105 @@ def precedence(run, fx):
         run.held('PRECEDENCE', 'state rule lists sorted at load', rs.loc(qs[0]), 'qsort(begin, end - begin, sizeof(RuleEntry), &cmpRuleEntry)', False)
     else:
         run.violated('PRECEDENCE', 'state rule lists sorted at load', rs.where(), 'the rule list of each FSM state is no longer sorted with cmpRuleEntry at load')
-    # accumulate_rules: both directions of operator<, equal entries dropped
+    # accumulate_rules: both directions of operator< on the two input cursors; an entry present on both sides is emitted once and both
+    # cursors move past it.  Roles: the cursors are whatever two locals the merge compares.
     ar = fx.one('graphite2::FiniteStateMachine::Rules::accumulate_rules')
     lts = [e for e in calls_in(ar, 'graphite2::RuleEntry::operator<')]
+
+    def cur_of(x):
+        x = ar.strip_all_casts(x)
+        if x['k'] == 'UnaryOperator' and x['op'] == '*':
+            y = ar.strip_all_casts(x['c'][0])
+            if y['k'] == 'DeclRefExpr' and y.get('vid') is not None:
+                return y['vid']
+        return None
     dirs = set()
     for e in lts:
-        a = [ar.render(ar.N(x)).replace(' ', '') for x in e['args']]
-        dirs.add(tuple(a))
-    okd = ('*lre', '*rre') in dirs and ('*rre', '*lre') in dirs
-    # the "equal" branch advances both cursors but stores once
+        p_ = tuple(cur_of(x) for x in e['args'])
+        if len(p_) == 2 and None not in p_:
+            dirs.add(p_)
+    pairs = [d for d in dirs if (d[1], d[0]) in dirs and d[0] != d[1]]
+    okd = bool(pairs)
     both = False
-    for b in ar.blocks:
-        fs = [f[:3] for f in dom.facts_at_block(ar, b)]
-        if sum(1 for f in fs if 'operator<' in f[0] and f[1] == '==' and f[2] == '0') >= 2:
-            txt = ' '.join(ar.render(x) for x in ar.blocks[b]['el'] if ar.is_root(x['i']))
-            if '++rre' in txt.replace(' ', '') and 'lre++' in txt.replace(' ', ''):
-                both = True
+    if okd:
+        ca, cb = pairs[0]
+        incs = {}
+        for _, e in ar.elements():
+            if e['k'] == 'UnaryOperator' and e['op'] in ('pre++', 'post++'):
+                v = ar.strip_all_casts(e['c'][0]).get('vid')
+                if v in (ca, cb):
+                    incs.setdefault(ar.block_of[e['i']], set()).add(v)
+        for blk, vs in incs.items():
+            fs = [f[:3] for f in dom.facts_at_block(ar, blk)]
+            if vs == {ca, cb} and sum(1 for f in fs if 'operator<' in f[0] and f[1] == '==' and f[2] == '0') >= 2:
+                nst = sum(1 for x in ar.blocks[blk]['el'] if (x['k'] == 'BinaryOperator' and x['op'] == '=' or
+                                                               (x['k'] == 'CXXOperatorCallExpr' and (x.get('fq') or '').endswith('operator=')))
+                          and 'RuleEntry' in (x.get('t') or ''))
+                both = nst == 1
     if okd and both:
-        run.held('PRECEDENCE', 'accumulate_rules merge', ar.where(), 'merge step compares *lre < *rre and *rre < *lre; equal entries are emitted once')
+        run.held('PRECEDENCE', 'accumulate_rules merge', ar.where(), 'merge step compares the two cursors with operator< in both directions; equal entries are emitted once')
     else:
         run.violated('PRECEDENCE', 'accumulate_rules merge', ar.where(), 'the merge of a state\'s rules into the candidate list no longer orders entries with RuleEntry::operator< '
-                     'in both directions (found %s) / drops duplicates (%s): with equal sort keys the earlier rule is not preferred across FSM states'
-                     % (sorted(dirs), both))
+                     'in both directions (%s) / drops duplicates (%s): with equal sort keys the earlier rule is not preferred across FSM states'
+                     % (okd, both))
 
 
 def firstpassing(run, fx):
+    """the candidate cursor starts at rules.begin(), is advanced only past an entry whose constraint just failed, and the action
+    that is run is the cursor's, under cursor != rules.end()"""
     fn = fx.one('graphite2::Pass::findNDoRule')
-    _, rd = find_decl(fn, 'r')
-    init = fn.render(rd['init']) if rd and rd.get('init') is not None else ''
-    incs = [e for _, e in fn.elements() if e['k'] == 'UnaryOperator' and e['op'] in ('pre++', 'post++') and fn.render(fn.N(e['c'][0])) == 'r']
+    cur = None
+    for _, e in fn.elements():
+        if e['k'] == 'DeclStmt':
+            for d in e.get('decls', []):
+                if d.get('init') is not None and d.get('vid') is not None and 'rules.begin()' in fn.render(fn.deref(d['init']), resolve=True):
+                    cur = d
     tc = calls_in(fn, 'graphite2::Pass::testConstraint')
     da = calls_in(fn, 'graphite2::Pass::doAction')
-    ok = 'rules.begin()' in init and len(incs) == 1 and len(tc) == 1 and da
-    if ok:
-        # ++r only after a failed constraint; doAction reachable only after the loop exited with r != re (constraint passed)
-        fi = [f[:3] for f in dom.facts_at(fn, incs[0]['i'])]
-        ok1 = any('testConstraint' in f[0] and f[1] == '==' and f[2] == '0' for f in fi)
-        ok2 = True
-        for d in da:
-            fd = [f[:3] for f in dom.facts_at(fn, d['i'])]
-            if not any(f[0] == 'r' and f[1] == '!=' and f[2] == 're' for f in fd):
-                ok2 = False
-            if 'r->rule->action' not in fn.render(fn.N(d['args'][0])).replace('.', '->') and 'r.rule.action' not in fn.render(fn.N(d['args'][0])).replace('->', '.'):
-                ok2 = False
-        ok = ok1 and ok2
-    if ok:
-        run.held('FIRSTPASSING', 'findNDoRule', fn.where(), 'r starts at rules.begin(), advances only past entries whose constraint failed, the action run is r->rule->action')
+    if cur is None or not tc or not da:
+        run.violated('FIRSTPASSING', 'findNDoRule', fn.where(), 'findNDoRule no longer walks the candidate list from rules.begin() with testConstraint / doAction '
+                     '(cursor %s, %d testConstraint, %d doAction calls)' % (cur and cur['n'], len(tc), len(da)))
+        return
+    cv, cn = cur['vid'], cur['n']
+    uses = lambda x: any(y['k'] == 'DeclRefExpr' and y.get('vid') == cv for y in fn.walk(fn.deref(x))) or \
+        any(y['k'] == 'DeclRefExpr' and y.get('vid') in fn.const_init and
+            any(z['k'] == 'DeclRefExpr' and z.get('vid') == cv for z in fn.walk(fn.const_init[y['vid']])) for y in fn.walk(x))
+    probs = []
+    moves = [e for _, e in fn.elements() if ((e['k'] == 'UnaryOperator' and e['op'] in ('pre++', 'post++', 'pre--', 'post--')) or
+                                             (e['k'] in ('CompoundAssignOperator', 'BinaryOperator') and e['op'] in ('+=', '-=', '=')))
+             and fn.strip_all_casts(e['c'][0]).get('vid') == cv]
+    if not moves:
+        probs.append('the cursor is never advanced')
+    for mv in moves:
+        fi = [f[:3] for f in dom.facts_at(fn, mv['i'])]
+        if not (mv['k'] == 'UnaryOperator' and '++' in mv['op']):
+            probs.append('the cursor is modified other than by ++ at %s' % fn.loc(mv))
+        elif not any('testConstraint' in f[0] and f[1] == '==' and f[2] == '0' for f in fi):
+            probs.append('the cursor is advanced at %s without the constraint of the entry it leaves having failed' % fn.loc(mv))
+    for t in tc:
+        if not (t.get('args') and uses(t['args'][0])):
+            probs.append('testConstraint is not applied to the cursor\'s rule')
+    for d in da:
+        fd = [f[:3] for f in dom.facts_at(fn, d['i'])]
+        if not any(f[1] == '!=' and ((f[0] == cn and 'rules.end()' in f[2]) or (f[2] == cn and 'rules.end()' in f[0]) or
+                                      (f[0] == cn and _is_end(fn, f[2])) or (f[2] == cn and _is_end(fn, f[0]))) for f in fd):
+            probs.append('doAction at %s is not dominated by cursor != rules.end()' % fn.loc(d))
+        if not (d.get('args') and uses(d['args'][0])):
+            probs.append('the action run at %s is not the cursor\'s' % fn.loc(d))
+    if not probs:
+        run.held('FIRSTPASSING', 'findNDoRule', fn.where(), '%s starts at rules.begin(), advances only past entries whose constraint failed, the action run is its rule\'s' % cn)
     else:
-        run.violated('FIRSTPASSING', 'findNDoRule', fn.where(), 'findNDoRule no longer executes the action of the FIRST candidate whose constraint passes')
+        run.violated('FIRSTPASSING', 'findNDoRule', fn.where(), 'findNDoRule no longer executes the action of the FIRST candidate whose constraint passes: ' + '; '.join(probs[:3]))
+
+
+def _is_end(fn, name):
+    """name is a local initialised from rules.end()"""
+    for _, e in fn.elements():
+        if e['k'] == 'DeclStmt':
+            for d in e.get('decls', []):
+                if d.get('n') == name and d.get('init') is not None and 'rules.end()' in fn.render(fn.deref(d['init']), resolve=True):
+                    return True
+    return False
 
 
 def pureconstraint(run, vm):
@@ -280,7 +346,7 @@ def passorder(run, fx):
 
 def _userblock_size_ok(fn, size):
     """size is (number of user attributes) * 2 bytes"""
-    size = fn.strip_all_casts(size)
+    size = fn.deref(size)
     if size['k'] == 'BinaryOperator' and size['op'] == '*':
         parts = [fn.deref(x) for x in size['c']]
         cnt = [p_ for p_ in parts if p_['k'] == 'CXXMemberCallExpr' and (p_.get('fq') or '').split('::')[-1] in ('numUser', 'numAttrs')]
@@ -302,7 +368,7 @@ def recycleclean(run, fx, vm=None):
             run.violated('RECYCLECLEAN', inst, fn.where(), 'the user-attribute block is no longer %s' % ('cleared when a slot is recycled' if what == 'memset' else 'copied with the slot'))
             continue
         e = ms[0]
-        txt = fn.render(fn.strip_all_casts(e['args'][2]))
+        txt = fn.render(fn.deref(e['args'][2]))
         if _userblock_size_ok(fn, e['args'][2]):
             run.held('RECYCLECLEAN', inst, fn.loc(e), '%s(.., %s): count * sizeof(element)' % (what, txt))
         else:
